@@ -597,31 +597,45 @@ def fam_contract(rng, tier, i):
 def fam_corrupt(rng, tier, i):
     """single-line damages that produce the lone-marker pattern (second marker line of a section, or the delta
     of a data line), at enumerated positions, with each callback mode; whole and bounded reads (C18).
-    Sizes reach past the 16 KiB read buffer so that the damage also falls on a buffer boundary."""
+    Modes: small series; a long first section so that the damage lies around the first read-buffer boundary
+    (bigbefore); a long *damaged* section so that the skipped stretch crosses one or more buffer boundaries
+    (bigdamaged). Kind 3 (payload >= 4): the damaged data line directly precedes a section."""
     p = rng.choice([0, 0, 1, 2, 3, 4, 6, 9])
     L = p + 2
-    big = rng.random() < (0.12 if tier == "quick" else 0.25)
+    chunk = ((16384 + L - 1) // L) * L
+    r = rng.random()
+    mode = "small" if r < (0.76 if tier == "quick" else 0.5) else ("bigbefore" if r < (0.88 if tier == "quick" else 0.75) else "bigdamaged")
     n = rng.choice([5, 7, 10, 14])
     for _ in range(100):
         lines = mk_lines(rng, p, n, shape=rng.choice(["mixed", "sparse", "edge", "mixed"]), no_marker=True)
-        lay = layout(p, lines)
-        secpos = [j for j, it in enumerate(lay) if it[0] == "S"]
-        if len(secpos) >= 3:
+        if len([1 for it in layout(p, lines) if it[0] == "S"]) >= 3:
             break
     s = [new_line("d", p)]
-    seq = []
-    if big:
-        # a long first section: the damage and the sections after it lie around the first buffer boundary
-        chunk = ((16384 + L - 1) // L) * L
+    # the series as segments: explicit lines and one optional run of consecutive timestamps (pushseq)
+    seq, pre, post = [], [], lines
+    if mode == "bigbefore":
         want = chunk // L + rng.randrange(-6, 3) - K(p)
         base = lines[0][0]
         if base < want + 10:
             return fam_corrupt(rng, tier, i)
-        s.append("pushseq %d 1 %d %d" % (base - want - 5, want, rng.randrange(256)))
         seq = [(base - want - 5 + k, b"") for k in range(want)]
-    s += push_lines(lines) + ["close"]
-    lay = layout(p, seq + lines)
-    first = len(seq) + (1 if seq else 0)      # items of the generated part (the long section has one header)
+    elif mode == "bigdamaged":
+        cut = rng.randrange(1, len(lines) - 1)
+        pre, post = lines[:cut], lines[cut:]
+        want = (chunk // L) * rng.choice([1, 1, 2]) + rng.randrange(-3, 60)
+        ts0 = pre[-1][0] + 70000 + rng.randrange(1000)
+        shift = ts0 + want + 70000 - post[0][0]
+        if shift > 0:
+            post = [(t + shift, pay) for t, pay in post]
+        if post[-1][0] >= U64 or not avoids_marker_tail(p, [ts0] + [t for t, _ in post]):
+            return fam_corrupt(rng, tier, i)
+        seq = [(ts0 + k, b"") for k in range(want)]
+    s += push_lines(pre)
+    if seq:
+        s.append("pushseq %d 1 %d %d" % (seq[0][0], len(seq), rng.randrange(256)))
+    s += push_lines(post) + ["close"]
+    allv = pre + seq + post
+    lay = layout(p, allv)
     secpos = [j for j, it in enumerate(lay) if it[0] == "S"]
     idx = []
     k = 0
@@ -629,34 +643,50 @@ def fam_corrupt(rng, tier, i):
         idx.append(k); k += K(p) if it[0] == "S" else 1
     total = k
     last_sec = secpos[-1]
-    kind = rng.choice([1, 1, 2])
+    seq_ts = {t for t, _ in seq}
+    kind = rng.choice([1, 1, 2, 3] if p >= 4 else [1, 1, 2])
     cb = rng.choice(["none", "deny", "allow", "allow", "allow"])
+    word = rng.choice(["0100", "0000", "feff", "fffe", "%02x%02x" % (rng.randrange(255), rng.randrange(256))])
     if kind == 1:
         # second marker line of a section that is neither the first nor the last -> a non-marker line
         cands = [j for j in secpos if j != last_sec and j > 0]
+        if mode == "bigdamaged":
+            cands = [j for j in cands if lay[j][1] == seq[0][0]]
+        elif mode == "bigbefore":
+            cands = [j for j in cands if lay[j][1] not in seq_ts]
         if not cands:
             return fam_corrupt(rng, tier, i)
         j = rng.choice(cands)
-        slot = idx[j] + 1
-        word = rng.choice(["0100", "0000", "feff", "fffe", "%02x%02x" % (rng.randrange(255), rng.randrange(256))])
-        s.append("fs_patch data:d %d %s" % ((total - slot) * L, word))
-    else:
+        s.append("fs_patch data:d %d %s" % ((total - (idx[j] + 1)) * L, word))
+    elif kind == 2:
         # a data line's delta -> FF FF; the line is followed by a data line, and a complete section follows later
-        cand = [j for j, it in enumerate(lay) if it[0] == "L" and j + 1 < len(lay) and lay[j + 1][0] == "L" and j < last_sec and j > max(1, first)]
+        cand = [j for j, it in enumerate(lay) if it[0] == "L" and j + 1 < len(lay) and lay[j + 1][0] == "L" and j < last_sec and j > 1]
+        if mode == "bigdamaged":
+            near = [j for j in cand if lay[j][1] in seq_ts and lay[j][1] - seq[0][0] < 12]
+            cand = near or cand
+        elif mode == "bigbefore":
+            cand = [j for j in cand if lay[j][1] not in seq_ts or seq[-1][0] - lay[j][1] < 8]
         if not cand:
             return fam_corrupt(rng, tier, i)
         j = rng.choice(cand)
-        slot = idx[j]
-        s.append("fs_patch data:d %d ffff" % ((total - slot) * L))
-    tss = [t for t, _ in lines]
+        s.append("fs_patch data:d %d ffff" % ((total - idx[j]) * L))
+    else:
+        # payload >= 4: a data line directly before a section; two more sections must follow
+        cand = [j for j, it in enumerate(lay) if it[0] == "L" and j + 1 < len(lay) and lay[j + 1][0] == "S"
+                and len([q for q in secpos if q > j]) >= 2 and j > 1]
+        if not cand:
+            return fam_corrupt(rng, tier, i)
+        j = rng.choice(cand)
+        s.append("fs_patch data:d %d ffff" % ((total - idx[j]) * L))
+    tss = [t for t, _ in lines] + ([seq[0][0], seq[len(seq) // 2][0], seq[-1][0]] if seq else [])
     s.append(open_line("d", "any", "any", (), cb))
-    reads = ["read_all u u", "read_first_n %d u u" % rng.choice([1, 2, 3, 1000]), "read_first_n 1000000 u u"]
-    for lo, hi in bounds_critical(rng, tss, 3):
+    reads = ["read_first_n %d u u" % rng.choice([1, 2, 3, 1000]), "read_first_n 1000000 u u"]
+    for lo, hi in bounds_critical(rng, sorted(tss), 3):
         reads.append("read_all %s %s" % (lo, hi))
     reads.append("read_first_n %d i%d u" % (rng.choice([1, 2, 50]), rng.choice(tss)))
     rng.shuffle(reads)
     s += ["read_all u u"] + reads + ["n_lines u u", "len", "last_line", "read_n 3 u u", "read_all u u", "close"]
-    return {"family": "corrupt", "lines": s, "tags": {"p%d" % p, "cb_" + cb, "kind%d" % kind} | ({"big"} if big else set())}
+    return {"family": "corrupt", "lines": s, "tags": {"p%d" % p, "cb_" + cb, "kind%d" % kind, mode} | ({"big"} if seq else set())}
 
 def fam_totality(rng, tier, i):
     """extreme values for every argument of every public call (C19)"""
